@@ -147,6 +147,9 @@ TARGETS = [
          self_bits=True, attrs={"bitstring.options.lsb0": ("opt_lsb0", "bool")}, fuel={1: "2 * len(self) + 2"}),
     dict(file="bitstring/bits.py", cls="Bits", func="_readsie", lean="readsie", params=[("pos", "int")], ret=("int", "int"),
          self_bits=True, attrs={"bitstring.options.lsb0": ("opt_lsb0", "bool")}),
+    # Bits.tofile: the chunk loop (the chunk size itself - constant or hook override - is extracted by extract_C17)
+    dict(file="bitstring/bits.py", cls="Bits", func="tofile", lean="tofile_loop", mode="trace", region="for start in range",
+         params=[("chunk_size", "int")]),
     # Array: len(self) is the number of items, self._dtype.bitlength the item width in bits
     dict(file="bitstring/array_.py", cls="Array", func="insert", lean="array_insert", mode="trace",
          pynames=["i", "x"], params=[("i", "int")], attrs={"self._dtype.bitlength": ("itemsize", "int")}),
